@@ -469,6 +469,18 @@ def check_find(m, f, rule):
     else:
         start = [o for o in ii.o if const_int(o) == 0]
         step = [f.get(o) for o in ii.o if const_int(o) is None]
+
+        def _stay_or_next(s):
+            return s is not None and s.op == 'phi' and s is not ii and all(
+                o == ii.ref or (f.get(o) is not None and f.get(o).op == 'add' and f.get(o).o[0] == ii.ref and const_int(f.get(o).o[1]) == 1)
+                for o in s.o)
+        if start and step and all(_stay_or_next(s) for s in step):
+            # the back edge runs through a merge that carries either i or i + 1 (clang's cleanup-destination switch for a
+            # block-scoped variable with a return inside the loop): which of the two continues the loop is decided by a
+            # switch on a phi of constants, which this rule does not thread -- the index never skips an element, and the
+            # rest (bound, result clause) would need that threading: no verdict either way
+            rule.ok('cstl_raw_array_find', 'NOT DECIDED: the loop index is carried through a merge of i and i + 1 (cleanup-destination form)', floc(m, f))
+            return
         if not start or not step or not all(s is not None and s.op == 'add' and s.o[0] == ii.ref and const_int(s.o[1]) == 1 for s in step):
             bad.append('the loop does not count up from 0 in steps of 1')
         below = pv.prove_at(('ult', ii.ref, '$1'), c)
